@@ -10,11 +10,57 @@ static void mon_read_result(struct DataAccess *obj, _Bool ok) { (void)obj; (void
   __CPROVER_loop_invariant(done <= to_do && done <= (1ul << 31) && (unsigned long)i == (unsigned long)g_i0 + 2ul * done && i <= limit + 1u && g_exc == EXC_NONE) \
   __CPROVER_loop_invariant(g_k < done ==> !g_occ[g_i0 + 2u * (unsigned)g_k]) \
   __CPROVER_decreases(to_do - done)
+/* ---- connect_drives: ghost state and loop contracts ------------------------------------------------------- */
+enum { DriveAllocation_FIRST = 1, DriveAllocation_PHYSICAL = 2 };
+static struct occ_fn h_occ;
+static size_t g_new_n;              /* drives connected by this call */
+static surface_t g_new0, g_new1;
+static surface_t g_m;               /* ghost drive number (unconstrained) */
+#define SPEC_OPPOSITE_(d) (((d) % 4u) < 2u ? (d) + 2u : (d) - 2u)
+#define IS_NEW_(d) ((g_new_n >= 1 && g_new0 == (d)) || (g_new_n >= 2 && g_new1 == (d)))
+#define FITS2_(m, k) ((unsigned long)(m) + 2ul * (k) <= (unsigned long)UINT_MAX && !g_occ[m] && !g_occ[SPEC_OPPOSITE_(m)] && ((k) < 2 || !g_occ[(m) + 2u]))
+static bool is_drive_connected_model(surface_t d) { return g_occ[d] || IS_NEW_(d); }
+static void connect_internal_model(surface_t n, size_t di)
+{
+  __CPROVER_assert(!is_drive_connected_model(n), "C16: a drive number is connected at most once (connect_internal's assert)");
+  __CPROVER_assert(di == g_new_n && di < 2, "C16: surfaces are connected in order");
+  if (g_new_n == 0) g_new0 = n; else g_new1 = n;
+  g_new_n++;
+}
+#define PHYS_OUTER_CONTRACT \
+  __CPROVER_assigns(n, g_exc, g_exc_by_pointer, g_cf_witness, g_i0, g_new_n, g_new0, g_new1) \
+  __CPROVER_loop_invariant(n <= limit && g_exc == EXC_NONE && g_new_n == 0) \
+  __CPROVER_loop_invariant((g_m < n) ==> !FITS2_(g_m, drives_n)) \
+  __CPROVER_loop_invariant((n >= 1) ==> !FITS2_(n - 1u, drives_n)) \
+  __CPROVER_loop_invariant((n >= 2) ==> !FITS2_(n - 2u, drives_n)) \
+  __CPROVER_decreases(limit - n)
+#define PHYS_CONNECT_CONTRACT \
+  __CPROVER_assigns(di, n, g_exc, g_exc_by_pointer, g_new_n, g_new0, g_new1) \
+  __CPROVER_loop_invariant(di <= drives_n && g_new_n == di && g_exc == EXC_NONE) \
+  __CPROVER_loop_invariant((unsigned long)n == (unsigned long)__CPROVER_loop_entry(n) + 2ul * di && (unsigned long)__CPROVER_loop_entry(n) + 2ul * drives_n <= (unsigned long)UINT_MAX) \
+  __CPROVER_loop_invariant((di >= 1) ==> g_new0 == __CPROVER_loop_entry(n)) \
+  __CPROVER_loop_invariant((di >= 2) ==> g_new1 == __CPROVER_loop_entry(n) + 2u) \
+  __CPROVER_decreases(drives_n - di)
+#define FIRST_OUTER_CONTRACT \
+  __CPROVER_assigns(di, n, g_exc, g_exc_by_pointer, g_new_n, g_new0, g_new1) \
+  __CPROVER_loop_invariant(di <= drives_n && n <= limit && g_exc == EXC_NONE) \
+  __CPROVER_loop_invariant(n == limit || g_new_n == di) \
+  __CPROVER_loop_invariant((g_m < n && !IS_NEW_(g_m)) ==> (g_occ[g_m] || (n < limit && g_m == n && 0))) \
+  __CPROVER_loop_invariant((g_new_n >= 1) ==> (g_new0 <= n && !g_occ[g_new0])) \
+  __CPROVER_loop_invariant((g_new_n >= 2) ==> (g_new0 < g_new1 && g_new1 <= n && !g_occ[g_new1])) \
+  __CPROVER_loop_invariant((g_new_n >= 1 && n < limit) ==> (g_new_n == 1 ? g_new0 == n : g_new1 == n)) \
+  __CPROVER_decreases(drives_n - di)
+#define FIRST_INNER_CONTRACT \
+  __CPROVER_assigns(n, g_exc, g_exc_by_pointer) \
+  __CPROVER_loop_invariant(n <= limit && n >= __CPROVER_loop_entry(n) && g_exc == EXC_NONE) \
+  __CPROVER_loop_invariant((g_m >= __CPROVER_loop_entry(n) && g_m < n) ==> (g_occ[g_m] || IS_NEW_(g_m))) \
+  __CPROVER_decreases(limit - n)
 #include "SurfaceSelector_opposite_surface.inc"
 #include "SurfaceSelector_corresponding_side_of_next_device.inc"
 #include "SurfaceSelector_next.inc"
 #include "SurfaceSelector_prev.inc"
 #include "check_sequence_fits.inc"
+#include "connect_drives.inc"
 #include "dfs_storage.h"
 
 void h_opposite(void) { SurfaceSelector_opposite_surface(nondet_uint()); }
@@ -24,8 +70,16 @@ void h_prev(void) { g_exc = EXC_NONE; SurfaceSelector_prev(nondet_uint()); }
 void h_fits(void)
 {
   static struct occ_fn occ;
-  g_exc = EXC_NONE; g_k = nondet_size_t(); g_i0 = nondet_uint();
-  bool r = check_sequence_fits(g_i0, nondet_size_t(), &occ);
+  g_exc = EXC_NONE; g_k = nondet_size_t();
+  bool r = check_sequence_fits(nondet_uint(), nondet_size_t(), &occ);
   VERIF_COVER(r, "fits");
   VERIF_COVER(!r, "does not fit");
+}
+
+void h_connect(void)
+{
+  g_exc = EXC_NONE; g_new_n = 0; g_m = nondet_uint(); g_k = nondet_size_t();
+  bool r = connect_drives(nondet_size_t(), nondet_int());
+  VERIF_COVER(r && g_new_n == 2 && g_new0 == 4, "two-sided image on drives 4 and 6");
+  VERIF_COVER(!r, "no room");
 }
